@@ -147,6 +147,10 @@ class RefExchange:
             final_for=final_for,
         )
 
+    def status_report(self):
+        """ExecutionReport with ExecType=I (Order Status): restates the order's current state."""
+        return [self._exec("status", "I", self.status(), self.live_id)]
+
     def _reject(self, to, clord, orig):
         return dict(
             t="9", label="cancel-reject", to=to, clord=clord, orig=orig, order_id=self.order_id,
@@ -707,6 +711,20 @@ class OrderMachine(_MachineBase):
             if self.cr:
                 vs.append(("finished-refuses-requests", f"C17/finished-but-can_replace/{self.after()}",
                            f"exchange finished the order ({ex.status()}) but can_replace() is True (status={o.status!r})"))
+            # a finished order refuses every request builder (tried on a copy, the order itself is not disturbed)
+            import copy
+
+            for kind, call in (("new", lambda c: c.new_req()), ("cancel", lambda c: c.cancel_req()),
+                               ("replace", lambda c: c.replace_req(price=c.price + 1.0))):
+                try:
+                    c = copy.deepcopy(o)
+                    m = call(c)
+                except Exception:
+                    continue
+                vs.append(("finished-refuses-requests", f"C17/finished-order-builds-request/req={kind}/status={ex.status()}",
+                           f"exchange finished the order ({ex.status()}) but {kind}_req() built {msg_text(m)} "
+                           f"(order status afterwards {c.status!r})"))
+            self.probes["finished_order_request_builders_probed"] += 1
         self.violate(vs)
 
     # ------------------------------------------------------------------ plumbing
@@ -1093,6 +1111,12 @@ class C20aMachine(_MachineBase):
             kw["cum_qty"] = s["cum"]
         if trade or explicit or s["leaves"] != o.leaves_qty:
             kw["leaves_qty"] = s["leaves"]
+        if s["ord_status"] in FINISHED and "leaves_qty" in kw and o.leaves_qty and not trade \
+                and (bits * 7 + len(self.executed)) % 5 == 0:
+            # the caller relies on the default although the order still has LeavesQty: the helper's own
+            # assertion must refuse this (probe); fabricating a finished report with LeavesQty != 0 is invalid
+            del kw["leaves_qty"]
+            self.probes["finished_report_with_defaulted_leaves_attempted"] += 1
         if trade:
             kw["last_qty"] = s["last"]
         if s["exec_type"] == E_REPLACED:
@@ -1336,6 +1360,14 @@ class C20aMachine(_MachineBase):
     def a_late_reject(self, act):
         return self._spont("late_reject", "reject_of_acknowledged_order", act)
 
+    def a_status(self, act):
+        if self.ex.phase is None or self.ex.held is not None or not self.new_sent:
+            return None
+        bits = int(act[1]) if len(act) > 1 else 0
+        self.probes["order_status_report"] += 1
+        self.deliver_specs(self.ex.status_report(), bits)
+        return ["status", bits]
+
     # ---- driving
     def apply(self, act):
         fn = getattr(self, "a_" + str(act[0]), None) if act else None
@@ -1365,6 +1397,8 @@ class C20aMachine(_MachineBase):
             for ev in ("fill", "expire", "suspend", "resume", "unsol_cancel", "late_reject"):
                 if self.exchange_may(ev):
                     ks.append(ev)
+        if self.ex.phase is not None and self.ex.held is None:
+            ks.append("status")
         return ks
 
     def choose(self):
